@@ -51,3 +51,90 @@ def tdm_script(draw, tier, control=False):
                     stt.args.kwargs[i][1] = ref
             items.append(stt)
     return A.Script(draw(S.ident()), "1.0", target, ptype, [], items)
+
+
+# ------------------------------------------------------------------ the check
+
+import numpy as np
+
+from ..run import Outcome, Violation, exc_bucket
+from .. import canon
+from ..valuecmp import IllConditioned
+from ..model import refsem
+from . import common as K
+
+ID = "C15"
+RULE = ("Hypothesis constructs tdm scripts (type tdm with options) with 0..4 int/float/complex p-arrays (p0, p1, p7, p12, p007; 1 x n and "
+        "r x c) used in positional and keyword position, ordinary scalars and arrays (also named pa, px1, p1a, P0), template parameters "
+        "in arguments, loops; and a control group with a non-tdm type. Oracle (reference model + round trip): arguments that are p-array "
+        "names arrive as the name (a str), variables[name] is the declared array (exact, 2-D), other variables are passed by value, "
+        "parameters contains no p-name and is_template() iff a {} parameter is written; q = loads(dumps(p)) preserves the p-arrays "
+        "exactly, the references to them and all operations. In the control group p-arrays are passed by value. Non-trivial = >=2 "
+        "p-arrays and an ordinary variable or template parameter. Distinct = SHA-1 of the script text.")
+ASSUMPTIONS = ["reference interpreter", "template parameters of tdm scripts occur in operation arguments only (not in variables)"]
+BUDGET = {"quick": (1200, 4), "thorough": (26000, 16)}
+
+
+@st.composite
+def case(draw, tier):
+    control = draw(st.integers(0, 5)) == 0
+    return {"script": draw(tdm_script(tier, control)), "layout": draw(K.layout_light()), "control": control}
+
+
+def strategy(tier):
+    return case(tier)
+
+
+dump_case, load_case = K.dump_case, K.load_case
+
+
+def check(c):
+    script = c["script"]
+    try:
+        ref = K.reference(script)
+    except K.Discard as d:
+        return Outcome(discard=d.reason)
+    text = K.render_case(c)
+    feats, nstmt = K.features(script)
+    import re
+    pnames = [it.name for it in script.items if isinstance(it, A.ArrayDecl) and re.match(r"^p[0-9]+$", it.name)]
+    out = Outcome(key=text, sample={"script": text}, classes=sorted(feats | {"control" if c["control"] else "tdm", "p-arrays:%d" % len(pnames)}))
+    out.nontrivial = len(pnames) >= 2 and bool(feats & {"scalar", "param"} or len([1 for it in script.items if isinstance(it, A.ArrayDecl)]) > len(pnames))
+    p, e = K.safe_loads(text)
+    if e is not None:
+        out.violations.append(Violation(exc_bucket("load", e), "valid tdm script refused: %s: %s\n%s" % (type(e).__name__, e, text)))
+        return out
+    try:
+        mm = canon.compare_ref(p, ref)
+        for name, rv in ref.variables.items():
+            if name not in p.variables:
+                mm.append(canon.Mismatch("variable-missing", "variable %s missing from program.variables" % name))
+            elif not isinstance(rv, refsem.RSym):
+                canon.value_matches(rv, p.variables[name], "variable-p-array" if name in pnames else "variable", mm)
+    except IllConditioned:
+        return Outcome(discard="ill-conditioned")
+    if set(p.parameters) != set(ref.params):
+        mm.append(canon.Mismatch("parameters", "expected %r, got %r" % (sorted(ref.params), sorted(p.parameters))))
+    if bool(p.is_template()) != bool(ref.params):
+        mm.append(canon.Mismatch("is_template", "is_template()=%r with written parameters %r" % (p.is_template(), sorted(ref.params))))
+    if mm:
+        out.violations.extend(K.mismatch_violations("tdm-load", mm, text))
+        return out
+    if c["control"]:
+        return out
+    t, e = K.safe_dumps(p)
+    if e is not None:
+        out.violations.append(Violation(exc_bucket("dumps", e), "dumps raised %s: %s\n%s" % (type(e).__name__, e, text)))
+        return out
+    q, e = K.safe_loads(t)
+    if e is not None:
+        out.violations.append(Violation(exc_bucket("reload", e), "serialised tdm program does not load: %s: %s\n%s\nsource:\n%s" % (type(e).__name__, e, t, text)))
+        return out
+    mm = canon.compare_programs(p, q)
+    for name in pnames:
+        if name not in q.variables:
+            mm.append(canon.Mismatch("p-array-lost", "p-array %s missing after the round trip" % name))
+        else:
+            canon.values_equal(p.variables[name], q.variables[name], "p-array", mm)
+    out.violations.extend(K.mismatch_violations("tdm-roundtrip", mm, "%s\nserialised as:\n%s" % (text, t)))
+    return out
